@@ -400,6 +400,16 @@ type ListHandler[V any] interface {
 	AccessList(list V, index V) (V, error)
 }
 
+// ListHandlerStack is an optional extension of the ListHandler. If the list
+// handler implements this interface, AccessListStack is called instead of
+// AccessList. It gets the stack of the running evaluation, so the evaluation
+// of a lazy list, which is required to access an item, is covered by the
+// recursion guard.
+type ListHandlerStack[V any] interface {
+	// AccessListStack is used to get a value from a list
+	AccessListStack(st Stack[V], list V, index V) (V, error)
+}
+
 // MapHandler is used to create and access maps
 type MapHandler[V any] interface {
 	// FromMap creates a map
@@ -1119,6 +1129,9 @@ func (g *FunctionGenerator[V]) GenerateFunc(ast parser2.AST, gc GeneratorContext
 				l, err := listFunc(st, cs)
 				if err != nil {
 					return zero, a.EnhanceErrorf(err, "error in getting list")
+				}
+				if lhs, ok := g.listHandler.(ListHandlerStack[V]); ok {
+					return lhs.AccessListStack(st, l, i)
 				}
 				return g.listHandler.AccessList(l, i)
 			}, iPure && lPure, nil
